@@ -625,6 +625,11 @@ class CallMixin:
     def m_dict_values(self, st, recv, args):
         return self._dict_view(st, recv, 'values')
 
+    def b_open(self, st, args):
+        s2 = st.fork()
+        posb, kwb = self.box_args(s2, args)
+        return self.prim(s2, 'ext!open', [sv_ref(posb), sv_ref(kwb)])
+
     def b_ChainMap(self, st, args):
         s2 = st.fork()
         d = args.pos[0] if args.pos else self.new_dict(s2, [])
